@@ -557,6 +557,11 @@ static void update_offset(printbuffer * const buffer)
 static cJSON_bool compare_double(double a, double b)
 {
     double maxVal = fabs(a) > fabs(b) ? fabs(a) : fabs(b);
+    if (maxVal > DBL_MAX)
+    {
+        /* the relative tolerance would be infinite as well: an infinity only equals itself */
+        return (a == b);
+    }
     return (fabs(a - b) <= maxVal * DBL_EPSILON);
 }
 
